@@ -31,7 +31,27 @@ pub fn skeleton(log: &str, stdout_route: bool) -> (Vec<Ev>, Vec<String>) {
     let mut evs: Vec<Ev> = vec![];
     let mut anomalies: Vec<String> = vec![];
     let mut seen_dirstat = false;
+    // strace -f splits a system call that overlaps with another thread's into `... <unfinished ...>` and
+    // `<... name resumed>...`: join the two halves (a thread has one call in flight at most)
+    let mut pending: std::collections::HashMap<String, String> = Default::default();
+    let mut joined: Vec<String> = vec![];
     for line in log.lines() {
+        let mut it = line.splitn(2, char::is_whitespace);
+        let pid = it.next().unwrap_or("").to_string();
+        let rest = it.next().unwrap_or("").trim_start();
+        if let Some(head) = rest.strip_suffix("<unfinished ...>") {
+            pending.insert(pid, head.to_string());
+            continue;
+        }
+        if rest.starts_with("<...") {
+            if let (Some(head), Some(at)) = (pending.remove(&pid), rest.find("resumed>")) {
+                joined.push(format!("{} {}{}", pid, head, &rest[at + "resumed>".len()..]));
+            }
+            continue;
+        }
+        joined.push(line.to_string());
+    }
+    for line in joined.iter().map(|s| s.as_str()) {
         let mut it = line.splitn(2, char::is_whitespace);
         let pid = it.next().unwrap_or("").to_string();
         let rest = it.next().unwrap_or("").trim_start();
